@@ -150,7 +150,8 @@ Qed.
 (* ---------------------------------------------------------------- header *)
 
 Lemma mapped_header_len meta h : mapped_header meta = Some h ->
-  len h = (len meta + 63) / 32 * 32 /\ len meta <= 512 /\ 32 <= len h <= 544 /\ len h mod 32 = 0.
+  len h = (len meta + 63) / 32 * 32 /\ len meta <= 512 /\ 32 <= len h <= 544 /\ len h mod 32 = 0 /\
+  32 + len meta <= len h.
 Proof.
   unfold mapped_header. destruct (N.ltb_spec c_maxMetaLen (len meta)) as [H|H]; [discriminate|].
   change c_maxMetaLen with 512 in H.
@@ -163,7 +164,7 @@ Proof.
   rewrite hdr_np_val. change (len c_hdrPrefix) with 28. rewrite round_int_32.
   replace (28 + 4 + len meta + 31) with (len meta + 63) by lia.
   assert (28 + 4 + len meta <= (len meta + 63) / 32 * 32) by divlia.
-  split; [lia|]. split; [lia|]. split; divlia.
+  split; [lia|]. split; [lia|]. split; [divlia|]. split; divlia.
 Qed.
 
 (* ---------------------------------------------------------------- hash *)
